@@ -149,6 +149,16 @@ def step_sv(ctx) -> None:
         ctx.require(len(applies) == 1, f"STEP-sv: {len(applies)} stepper.apply calls per iteration (expected 1)")
         a = applies[0]
         seen_apply += 1
+        # the stepper protocol (shared by the autograd Function and the density-matrix stepper) is exactly: dt, Ω, δ, φ,
+        # interaction matrix, state, tolerance, jump operators — everything the step depends on is passed anew each step
+        extra = len(a.pos) > 8 or any(isinstance(x, ast.Starred) for x in getattr(a.node, "args", []))
+        ctx.ob("STEP-sv", "stepper protocol", a.loc(), not extra,
+               "the stepper receives the eight per-step arguments and nothing carried over from the previous step" if not extra else
+               f"stepper.apply receives {len(a.pos)} positional arguments (the protocol has 8): something beyond the drives, "
+               f"the interaction matrix, the state, the tolerance and the jump operators of *this* step — e.g. the previous "
+               f"step's generator — reaches the stepper, so a step can evolve under another step's Hamiltonian", entry=f.qualname)
+        if extra:
+            continue
         ctx.require(len(a.pos) == 8 and not a.kw, f"STEP-sv: stepper.apply is called with {len(a.pos)} positional "
                                                    f"and {len(a.kw)} keyword arguments (8 positional expected)")
         dt, om, de, ph, um, st, tol, lb = a.pos
@@ -390,6 +400,20 @@ def _stepper_to_hamiltonian(ctx, C, entry: FuncInfo, role_of: dict) -> None:
                        "the vector exponentiated is the stepper's state argument" if oks else
                        f"krylov_exp acts on {show(st)[:60]}", entry=entry.qualname)
     ctx.require(n >= 1, f"ROLE-sv: no Hamiltonian constructor reached from {entry.qualname}")
+    # the generator handed back (and exponentiated) is the one built in this call, on every path
+    stale = []
+    for p in paths:
+        rv = strip_typed(p.retval) if p.status == "return" else None
+        if rv is None or rv[0] != "tuple" or len(rv[1]) != 2:
+            continue
+        h = strip_typed(rv[1][1])
+        built = h[0] in ("call", "mcall", "new") and ("get_hamiltonian" in show(h)[:60] or h[1].endswith(("RydbergHamiltonian", "RydbergLindbladian")))
+        if not built:
+            stale.append(show(h)[:70])
+    ctx.ob("ROLE-sv", f"{C.name} builds its generator in the call", entry.loc(), not stale,
+           "the generator returned with the new state is the one constructed from this call's arguments" if not stale else
+           f"{entry.qualname.split('.')[-2]}.{entry.name} returns/uses the generator {stale[0]}, which is not (always) the one "
+           f"built from this step's drives and interaction matrix", entry=entry.qualname)
     # no path bypasses the exponentiation: the state component of every returned value is krylov_exp(...)'s result
     bypass = []
     for p in paths:
